@@ -19,7 +19,10 @@
 (*   guardmk p      `if not exists(p): mkdir(p)` (check-then-act, two steps, strict)       *)
 (*   creat p x      open for writing (x=1 truncate, 0 keep/append, 2 exclusive)            *)
 (*   write p / closew p / put p (= creat;write;close as one step, coarse models)           *)
-(*   openr p, stat p, listdir p      observations (recorded in obs)                        *)
+(*   openr p, stat p x, listdir p    observations (recorded in obs); a stand-alone existence *)
+(*                  test that answers differently from the recorded answer x stops the     *)
+(*                  worker with "DIVERGED": its recorded operation list says nothing about  *)
+(*                  what it would do next, so no failure is ever derived from such a path  *)
 (*   rename p q, link p q, unlink p, rmdir p, exit x (x=1: status 0)                       *)
 EXTENDS Integers, Sequences, FiniteSets, TLC
 
@@ -97,7 +100,10 @@ StepOp(fs, l, w, op) ==
          IF ~Exists(fs, op.p) THEN Fail(fs, l, "ENOENT")
          ELSE IF IsDir(fs, op.p) THEN Fail(fs, l, "EISDIR")
          ELSE Adv(fs, Seen(l, "read", op.p, TRUE, fs[op.p].c, {}))
-    [] op.k = "stat" -> Adv(fs, Seen(l, "stat", op.p, Exists(fs, op.p), <<>>, {}))
+    [] op.k = "stat" ->                     \* x = what the worker saw when its operations were recorded
+         IF Exists(fs, op.p) # (op.x = 1)
+         THEN Fail(fs, Seen(l, "stat", op.p, Exists(fs, op.p), <<>>, {}), "DIVERGED")
+         ELSE Adv(fs, Seen(l, "stat", op.p, Exists(fs, op.p), <<>>, {}))
     [] op.k = "listdir" ->
          IF ~IsDir(fs, op.p) THEN Fail(fs, l, "ENOTDIR")
          ELSE Adv(fs, Seen(l, "ls", op.p, TRUE, <<>>, Children(fs, op.p)))
